@@ -301,6 +301,19 @@ func runC13(c *an.Ctx) {
 			c.Check(okR, "C13.d", "first-valid", "performRequest returns (r.headers, nil) only under r.err == nil for the same received result r", perform, r, "returns "+res0, fs)
 		}
 		c.Min("C13.d", "successful returns of performRequest", nNil, 1)
+		// a failed attempt of one peer does not end the request: no way out of performRequest lies on the
+		// path of "this received result failed" — the others are still awaited
+		if recvTerm != "" {
+			failed := an.NE(recvTerm+".err", "nil")
+			okCont := true
+			var at ssa.Instruction
+			for _, r := range ff.Returns() {
+				if ff.AtInstr(r).Has(failed) {
+					okCont, at = false, r
+				}
+			}
+			c.Check(okCont, "C13.d", "failed-attempt-continues", "a failed answer of one trusted peer never ends the request: the remaining peers are still awaited (only the last collected failure is reported, after all of them)", perform, at, "", nil)
+		}
 		// producers: every send on a channel of the result type inside performRequest's closures
 		nSend := 0
 		for _, cl := range perform.AnonFuncs {
